@@ -14,8 +14,12 @@ import sys
 import time
 
 VERIF = os.path.dirname(os.path.dirname(os.path.abspath(__file__)))
-HARNESS = os.path.join(VERIF, 'harness')
-TARGET = os.path.join(VERIF, 'target')
+# Development aid (tools/run_seed_scratch.sh): a copy of the harness that path-depends on a scratch copy of the repository,
+# with its own target and output directories, so that a seeded change can be judged without touching /repo or the evidence of
+# real runs.  The registered commands never set these variables.
+HARNESS = os.environ.get('AVMON_HARNESS') or os.path.join(VERIF, 'harness')
+TARGET = os.environ.get('AVMON_TARGET') or os.path.join(VERIF, 'target')
+OUT = os.environ.get('AVMON_OUT') or VERIF
 EXEC_BIN = os.path.join(TARGET, 'checked', 'avmon-exec')
 CORPUS_BIN = os.path.join(TARGET, 'checked', 'avmon-corpus')
 NCPU = min(16, os.cpu_count() or 4)
@@ -33,6 +37,8 @@ def build(package='avmon-exec', extra=None, quiet=True):
     if not os.path.exists(lock_dst) and os.path.exists(lock_src):
         shutil.copy(lock_src, lock_dst)
     env = dict(os.environ, CARGO_NET_OFFLINE='true', CARGO_TERM_COLOR='never')
+    if os.environ.get('AVMON_TARGET'):
+        env['CARGO_TARGET_DIR'] = TARGET
     cmd = ['cargo', 'build', '--offline', '--profile', 'checked', '-p', package] + (extra or [])
     t0 = time.time()
     p = subprocess.run(cmd, cwd=HARNESS, env=env, stdout=subprocess.PIPE, stderr=subprocess.STDOUT, text=True)
@@ -89,7 +95,7 @@ class Run:
         self.seed = seed
         self.level = level
         self.t0 = time.time()
-        self.workdir = os.path.join(VERIF, 'work', '%s-%d' % (prop, os.getpid()))
+        self.workdir = os.path.join(OUT, 'work', '%s-%d' % (prop, os.getpid()))
         shutil.rmtree(self.workdir, ignore_errors=True)
         os.makedirs(self.workdir)
         self.violations = []
@@ -143,7 +149,10 @@ class Run:
         A worker that dies leaves a 'call' record without result: reported through
         self.crashed (list of (op id, op name, returncode)).
         """
-        binary = binary or EXEC_BIN
+        binary = binary or os.path.join(TARGET, 'checked', 'avmon-exec')
+        if not self.quick():
+            # the limit is per worker process (a whole shard of cases), not per operation: thorough shards are long
+            cpu_limit_s = max(cpu_limit_s, 6000)
         shards = shards or NCPU
         shards = max(1, min(shards, len(cases)))
         buckets = [[] for _ in range(shards)]
@@ -215,17 +224,17 @@ class Run:
             by_sig.setdefault(v.sig, []).append(v)
         new_sigs = [s for s in by_sig if s not in known]
         known_hit = [s for s in by_sig if s in known]
-        os.makedirs(os.path.join(VERIF, 'replay'), exist_ok=True)
-        os.makedirs(os.path.join(VERIF, 'evidence'), exist_ok=True)
+        os.makedirs(os.path.join(OUT, 'replay'), exist_ok=True)
+        os.makedirs(os.path.join(OUT, 'evidence'), exist_ok=True)
         replay_paths = {}
         if not getattr(self, 'replaying', False):
             import glob
-            for old in glob.glob(os.path.join(VERIF, 'replay', '%s-*.json' % self.prop)):
+            for old in glob.glob(os.path.join(OUT, 'replay', '%s-*.json' % self.prop)):
                 os.unlink(old)
         for s in by_sig:
             h = hashlib.blake2b(s.encode(), digest_size=5).hexdigest()
             for n, v in enumerate(by_sig[s][:2]):
-                path = os.path.join(VERIF, 'replay', '%s-%s-%d.json' % (self.prop, h, n))
+                path = os.path.join(OUT, 'replay', '%s-%s-%d.json' % (self.prop, h, n))
                 with open(path, 'w') as f:
                     json.dump({'property': self.prop, 'sig': s, 'what': v.what, 'case': v.case,
                                'observed': v.observed, 'expected': v.expected, 'seed': self.seed,
@@ -268,7 +277,7 @@ class Run:
         ev = {'property_id': self.prop, 'tier': self.tier, 'seed': int(self.seed), 'level': self.level,
               'coverage': cov, 'assumptions': self.assumptions, 'wall_s': round(wall, 2),
               'violations': len(new_sigs)}
-        with open(os.path.join(VERIF, 'evidence', '%s%s.json' % (self.prop, '.replay' if getattr(self, 'replaying', False) else '')), 'w') as f:
+        with open(os.path.join(OUT, 'evidence', '%s%s.json' % (self.prop, '.replay' if getattr(self, 'replaying', False) else '')), 'w') as f:
             json.dump(ev, f, indent=1, default=str)
         shutil.rmtree(self.workdir, ignore_errors=True)
         print('%s: %s  evaluations=%d distinct_nontrivial=%d known_findings=%d wall=%.1fs' % (
